@@ -1,6 +1,8 @@
 """C13 — concurrent file reads never exceed the configured limits."""
 
 MODULE = "DtailModel.Props.C13"
+# scripts with real waits: a disagreement counts only if it reproduces when re-run alone (flake policy, DESIGN 2.3)
+TIMED_OPS = ("c13.script", "c13.tail")
 GROUPS = ["C13"]
 LOGGER = "none"
 JOBS = 16
